@@ -465,7 +465,7 @@ func (o *origin) RoundTrip(req *http.Request) (*http.Response, error) {
 	}
 	var rc io.ReadCloser = io.NopCloser(bytes.NewReader(body))
 	if !rep.BodyOK {
-		rc = &failingBody{data: body[:len(body)/2]}
+		rc = &failingBody{data: body} // every byte arrives, then the stream fails instead of ending
 	}
 	return &http.Response{
 		Status:        strconv.Itoa(rep.Status) + " " + http.StatusText(rep.Status),
